@@ -318,7 +318,7 @@ class Describer:
         if len(args) == 2:
             m = sh.rsplit('::', 1)[-1]
             if m in CMP_METHODS and ('PartialOrd' in sh or 'PartialEq' in sh or 'Ord' in (c.tr or '') or 'PartialEq' in (c.tr or '') or 'PartialOrd' in (c.tr or '')):
-                return norm_bin(CMP_METHODS[m], args[0], args[1])
+                return norm_bin(CMP_METHODS[m], args[0], args[1]) + (c.bb,)
         # method form of the trait for unresolved trait calls
         return ('call', sh, canon(c.f) if c.f else '', args, c.bb)
 
